@@ -227,6 +227,13 @@ func main() {
 					scs = append(scs, atomScenario(init, [][]call{{a}, {b}, {c}}, -1))
 					if r.Thorough() {
 						scs = append(scs, atomScenario(init, [][]call{{a, alpha[0]}, {b, alpha[5]}, {c, alpha[3]}}, -1))
+						// (2,1,1) programs: every second call for the first thread; 4 threads of single calls
+						for _, d := range alpha {
+							scs = append(scs, atomScenario(init, [][]call{{a, d}, {b}, {c}}, -1))
+						}
+						for _, d := range alpha[i+j:] {
+							scs = append(scs, atomScenario(init, [][]call{{a}, {b}, {c}, {d}}, 3))
+						}
 					}
 				}
 			}
@@ -242,6 +249,17 @@ func main() {
 		for _, tri := range [][]string{{"GYP", "GYP", "GYP"}, {"NG", "GP", "GP"}, {"GGPP", "GP", "NGP"}, {"GPGP", "GYP", "G"}} {
 			scs = append(scs, poolScenario(withNew, tri, ev.Pick(r, 3, -1)))
 		}
+		if r.Thorough() {
+			small := []string{"GP", "GYP", "NG", "G", "NGP", "GG"}
+			for i, a := range small {
+				for j, b := range small[i:] {
+					for _, c := range small[i+j:] {
+						scs = append(scs, poolScenario(withNew, []string{a, b, c}, -1))
+					}
+				}
+			}
+			scs = append(scs, poolScenario(withNew, []string{"GP", "GP", "GP", "GP"}, 3), poolScenario(withNew, []string{"NG", "GP", "G", "GYP"}, 3))
+		}
 	}
 	for _, idle := range []int{15, 16, 63, 64, 255, 256, 1023, 1024, 4095, 4096} {
 		for _, pp := range [][]string{{"N", "N"}, {"NG", "N"}, {"GP", "NN"}} {
@@ -252,7 +270,7 @@ func main() {
 		return map[string]int64{"distinct_histories_judged_by_porcupine": int64(lin.Distinct())}
 	}
 	schk.Main(r, scs, ev.Pick(r, 45*time.Second, 900*time.Second), func(r *ev.Run) {
-		r.Set("rule", "controlled scheduler over the instrumented sync2 package. AtomicValue[int]: from the empty and from a pre-stored register, every pair of programs of 1-2 calls and every triple of single calls from Load, Store(1|2), Swap(1|2), CompareAndSwap(0->1|1->2|2->1) under ALL interleavings; oracle: porcupine register model (empty reads as zero, Swap returns the replaced value, CAS after the first store succeeds iff current == old, CAS on the empty register unconstrained). Pool[*token]: with and without New (New mints numbered tokens), 2-3 threads of Get/Put programs, pool hit / miss / which pooled item are enumerated environment answers; oracle: a token returned by Get is not held by another Get caller; the race detector runs inside every explored schedule of the race build (this is what decides 'free of data races')")
+		r.Set("rule", "controlled scheduler over the instrumented sync2 package. AtomicValue[int]: from the empty and from a pre-stored register, every pair of programs of 1-2 calls and every triple of single calls (thorough: also (2,1,1)-call triples and 4 threads of single calls under 3 preemptions) from Load, Store(1|2), Swap(1|2), CompareAndSwap(0->1|1->2|2->1) under ALL interleavings; oracle: porcupine register model (empty reads as zero, Swap returns the replaced value, CAS after the first store succeeds iff current == old, CAS on the empty register unconstrained). Pool[*token]: with and without New (New mints numbered tokens), 2-3 threads of Get/Put programs, pool hit / miss / which pooled item are enumerated environment answers; oracle: a token returned by Get is not held by another Get caller; the race detector runs inside every explored schedule of the race build (this is what decides 'free of data races')")
 		r.Assume("the real sync.Pool's per-P caches and GC clearing are over-approximated by a multiset with nondeterministic hit/miss")
 	})
 }
